@@ -8,6 +8,7 @@ import (
 	"fmt"
 	"io"
 	"math/rand"
+	"net"
 	"os"
 	"os/exec"
 	"path/filepath"
@@ -49,6 +50,10 @@ type c13Scn struct {
 	// Pool: goroutines that use the Client's connection-per-caller API: DialToSMTPClientWithContext, SendWithSMTPClient
 	// on the connection they got, CloseWithSMTPClient
 	Pool int `json:"pool,omitempty"`
+	// Fallback: the Client is configured with WithTLSPortPolicy(opportunistic) (port 587, fallback port 25); every
+	// dial to port 587 is refused, the connections come from the fallback port. Each dial attempt is a visible
+	// operation for the scheduler.
+	Fallback bool `json:"fallback,omitempty"`
 }
 
 type c13Case struct {
@@ -57,30 +62,32 @@ type c13Case struct {
 }
 
 var c13Scenarios = []c13Scn{
-	{"2xSend(1)", 2, 0, 1, "", 0, false, false, 0, 0},
-	{"2xSend(2)", 2, 0, 2, "", 0, false, false, 0, 0},
-	{"3xSend(1)", 3, 0, 1, "", 0, false, false, 0, 0},
-	{"2xDialAndSend(1)", 0, 2, 1, "", 0, false, false, 0, 0},
-	{"Send+DialAndSend", 1, 1, 1, "", 0, false, false, 0, 0},
-	{"2xSend+DialAndSend", 2, 1, 1, "", 0, false, false, 0, 0},
-	{"2xDialAndSend(1)+LOGIN", 0, 2, 1, "LOGIN", 0, false, false, 0, 0},
-	{"2xDialAndSend(1)+SCRAM", 0, 2, 1, "SCRAM-SHA-256", 0, false, false, 0, 0},
-	{"Send+DialAndSend+AUTODISCOVER", 1, 1, 1, "AUTODISCOVER", 0, false, false, 0, 0},
-	{"2xSend(1)/rcpt-refused", 2, 0, 1, "", 1, false, false, 0, 0},
-	{"2xSend(2)/data-refused", 2, 0, 2, "", 3, false, false, 0, 0},
-	{"Send+DialAndSend/dialer-rcpt-refused", 1, 1, 1, "", 1, false, false, 0, 0},
-	{"Send+DialAndSend/dialer-rcpt-refused+rset-fails", 1, 1, 1, "", 2, false, false, 0, 0},
-	{"Send+DialAndSend/dialer-data-refused", 1, 1, 1, "", 3, false, false, 0, 0},
-	{"2xDialAndSend(1)/rcpt-refused+rset-fails", 0, 2, 1, "", 2, false, false, 0, 0},
-	{"Send+DialAndSend+debuglog", 1, 1, 1, "", 0, true, false, 0, 0},
-	{"2xDialAndSend(1)+debuglog", 0, 2, 1, "", 0, true, false, 0, 0},
-	{"2xDialAndSend(1)+quoted-local-parts", 0, 2, 1, "", 0, false, true, 0, 0},
-	{"Send+DialAndSend+quoted-local-parts", 1, 1, 1, "", 0, false, true, 0, 0},
-	{"2xDialAndSend(1)+starttls(caller's config without server name)", 0, 2, 1, "", 0, false, false, 2, 0},
-	{"2xDialToSMTPClient+SendWithSMTPClient", 0, 0, 1, "", 0, false, false, 0, 2},
-	{"Send+DialToSMTPClient+SendWithSMTPClient", 1, 0, 1, "", 0, false, false, 0, 1},
-	{"DialAndSend+DialToSMTPClient+SendWithSMTPClient+LOGIN", 0, 1, 1, "LOGIN", 0, false, false, 0, 1},
-	{"2xDialToSMTPClient+SendWithSMTPClient/rcpt-refused+rset-fails", 0, 0, 1, "", 2, false, false, 0, 2},
+	{"2xSend(1)", 2, 0, 1, "", 0, false, false, 0, 0, false},
+	{"2xSend(2)", 2, 0, 2, "", 0, false, false, 0, 0, false},
+	{"3xSend(1)", 3, 0, 1, "", 0, false, false, 0, 0, false},
+	{"2xDialAndSend(1)", 0, 2, 1, "", 0, false, false, 0, 0, false},
+	{"Send+DialAndSend", 1, 1, 1, "", 0, false, false, 0, 0, false},
+	{"2xSend+DialAndSend", 2, 1, 1, "", 0, false, false, 0, 0, false},
+	{"2xDialAndSend(1)+LOGIN", 0, 2, 1, "LOGIN", 0, false, false, 0, 0, false},
+	{"2xDialAndSend(1)+SCRAM", 0, 2, 1, "SCRAM-SHA-256", 0, false, false, 0, 0, false},
+	{"Send+DialAndSend+AUTODISCOVER", 1, 1, 1, "AUTODISCOVER", 0, false, false, 0, 0, false},
+	{"2xSend(1)/rcpt-refused", 2, 0, 1, "", 1, false, false, 0, 0, false},
+	{"2xSend(2)/data-refused", 2, 0, 2, "", 3, false, false, 0, 0, false},
+	{"Send+DialAndSend/dialer-rcpt-refused", 1, 1, 1, "", 1, false, false, 0, 0, false},
+	{"Send+DialAndSend/dialer-rcpt-refused+rset-fails", 1, 1, 1, "", 2, false, false, 0, 0, false},
+	{"Send+DialAndSend/dialer-data-refused", 1, 1, 1, "", 3, false, false, 0, 0, false},
+	{"2xDialAndSend(1)/rcpt-refused+rset-fails", 0, 2, 1, "", 2, false, false, 0, 0, false},
+	{"Send+DialAndSend+debuglog", 1, 1, 1, "", 0, true, false, 0, 0, false},
+	{"2xDialAndSend(1)+debuglog", 0, 2, 1, "", 0, true, false, 0, 0, false},
+	{"2xDialAndSend(1)+quoted-local-parts", 0, 2, 1, "", 0, false, true, 0, 0, false},
+	{"Send+DialAndSend+quoted-local-parts", 1, 1, 1, "", 0, false, true, 0, 0, false},
+	{"2xDialAndSend(1)+starttls(caller's config without server name)", 0, 2, 1, "", 0, false, false, 2, 0, false},
+	{"2xDialAndSend(1)+fallback-port", 0, 2, 1, "", 0, false, false, 0, 0, true},
+	{"DialAndSend+DialToSMTPClient+fallback-port", 0, 1, 1, "", 0, false, false, 0, 1, true},
+	{"2xDialToSMTPClient+SendWithSMTPClient", 0, 0, 1, "", 0, false, false, 0, 2, false},
+	{"Send+DialToSMTPClient+SendWithSMTPClient", 1, 0, 1, "", 0, false, false, 0, 1, false},
+	{"DialAndSend+DialToSMTPClient+SendWithSMTPClient+LOGIN", 0, 1, 1, "LOGIN", 0, false, false, 0, 1, false},
+	{"2xDialToSMTPClient+SendWithSMTPClient/rcpt-refused+rset-fails", 0, 0, 1, "", 2, false, false, 0, 2, false},
 }
 
 var c13Blocked int32
@@ -146,6 +153,17 @@ func c13Build(r *vf.Run, scn c13Scn, hook func(string)) *c13World {
 		return c
 	}}
 	opts := []mail.Option{mail.WithDialContextFunc(w.rig.Dial), mail.WithHELO("client.example.test"), mail.WithTLSPolicy(mail.NoTLS)}
+	if scn.Fallback {
+		opts = append(opts, mail.WithTLSPortPolicy(mail.TLSOpportunistic), mail.WithDialContextFunc(func(ctx context.Context, network, addr string) (net.Conn, error) {
+			if hook != nil {
+				hook("dial")
+			}
+			if strings.HasSuffix(addr, ":587") {
+				return nil, fmt.Errorf("dial tcp %s: connect: connection refused", addr)
+			}
+			return w.rig.Dial(ctx, network, addr)
+		}))
+	}
 	switch scn.TLS {
 	case 1:
 		opts = append(opts, mail.WithTLSPolicy(mail.TLSMandatory), mail.WithTLSConfig(hx.ClientTLS(hx.Host)))
@@ -329,13 +347,14 @@ func c13RacePass(iter int) int {
 	rng := rand.New(rand.NewSource(int64(iter)))
 	var rmu sync.Mutex
 	for it := 0; it < iter; it++ {
-		for _, scn := range []c13Scn{{"2", 2, 0, 1, "", 0, false, false, 0, 0}, {"8", 6, 2, 1, "", 0, false, false, 0, 0}, {"64", 48, 16, 1, "", 0, false, false, 0, 0}, {"3x2", 3, 0, 2, "", 0, false, false, 0, 0}, {"dial", 0, 4, 1, "", 0, false, false, 0, 0},
-			{"dial+login", 0, 6, 1, "LOGIN", 0, false, false, 0, 0}, {"mixed+scram", 3, 5, 1, "SCRAM-SHA-256", 0, false, false, 0, 0}, {"mixed+auto", 2, 6, 1, "AUTODISCOVER", 0, false, false, 0, 0},
-			{"mixed+debuglog", 4, 4, 1, "", 0, true, false, 0, 0}, {"dial+login+debuglog", 0, 6, 1, "LOGIN", 0, true, false, 0, 0},
-			{"mixed+quoted-local-parts", 3, 6, 1, "", 0, false, true, 0, 0},
-			{"dial+starttls", 0, 6, 1, "", 0, false, false, 1, 0}, {"dial+starttls(caller's config without server name)", 0, 6, 1, "", 0, false, false, 2, 0},
-			{"mixed+starttls+login(caller's config without server name)", 2, 4, 1, "LOGIN", 0, false, false, 2, 0},
-			{"mixed+own-connections", 2, 2, 1, "", 0, false, false, 0, 4}, {"own-connections+scram+starttls", 0, 0, 1, "SCRAM-SHA-256", 0, false, false, 1, 6}} {
+		for _, scn := range []c13Scn{{"2", 2, 0, 1, "", 0, false, false, 0, 0, false}, {"8", 6, 2, 1, "", 0, false, false, 0, 0, false}, {"64", 48, 16, 1, "", 0, false, false, 0, 0, false}, {"3x2", 3, 0, 2, "", 0, false, false, 0, 0, false}, {"dial", 0, 4, 1, "", 0, false, false, 0, 0, false},
+			{"dial+login", 0, 6, 1, "LOGIN", 0, false, false, 0, 0, false}, {"mixed+scram", 3, 5, 1, "SCRAM-SHA-256", 0, false, false, 0, 0, false}, {"mixed+auto", 2, 6, 1, "AUTODISCOVER", 0, false, false, 0, 0, false},
+			{"mixed+debuglog", 4, 4, 1, "", 0, true, false, 0, 0, false}, {"dial+login+debuglog", 0, 6, 1, "LOGIN", 0, true, false, 0, 0, false},
+			{"mixed+quoted-local-parts", 3, 6, 1, "", 0, false, true, 0, 0, false},
+			{"dial+starttls", 0, 6, 1, "", 0, false, false, 1, 0, false}, {"dial+starttls(caller's config without server name)", 0, 6, 1, "", 0, false, false, 2, 0, false},
+			{"mixed+starttls+login(caller's config without server name)", 2, 4, 1, "LOGIN", 0, false, false, 2, 0, false},
+			{"mixed+own-connections", 2, 2, 1, "", 0, false, false, 0, 4, false}, {"own-connections+scram+starttls", 0, 0, 1, "SCRAM-SHA-256", 0, false, false, 1, 6, false},
+			{"dial+fallback-port", 0, 6, 1, "", 0, false, false, 0, 2, true}} {
 			if scn.Senders+scn.Dialers+scn.Pool > 16 && it%4 != 0 {
 				continue
 			}
@@ -382,7 +401,7 @@ func init() {
 	vf.Register(&vf.Check{
 		ID: "C13", Title: "concurrent use of one Client is safe",
 		Run: func(r *vf.Run) {
-			r.SetRule("scenarios {2×Send(1 msg), 2×Send(2 msgs), 3×Send(1), 2×DialAndSend, Send+DialAndSend, 2×Send+DialAndSend, 2×DialAndSend with LOGIN / SCRAM authentication, Send+DialAndSend with auto-discovered authentication; scenarios with debug logging through the library's own logger, scenarios whose envelope addresses need quoting, scenarios in which goroutines use the connection-per-caller API (DialToSMTPClientWithContext, SendWithSMTPClient, CloseWithSMTPClient) next to each other and next to Send / DialAndSend, scenarios in which every connection negotiates STARTTLS (real crypto/tls handshakes) with one caller-supplied tls.Config that does not name the server, and scenarios in which the server refuses one message (a recipient with or without a failing clean-up RSET, or DATA) of one thread while the other threads' messages must be unaffected} on one Client; ALL interleavings at visible operations (every Lock/RLock of go-mail's mutexes through the sync shim, every connection Read/Write/Close) up to the preemption bound, under a cooperative scheduler that models Go's RWMutex (a waiting writer blocks new readers); oracle per schedule: protocol monitor on every connection, commit log = every message the server did not refuse exactly once with its own envelope and complete content (a refused one never), exactly the calls without a refused message return nil, no deadlock; plus a separate free-running pass of the same bodies under the Go race detector (2..64 goroutines, jittered I/O) — that pass samples schedules; distinct by (scenario, schedule)")
+			r.SetRule("scenarios {2×Send(1 msg), 2×Send(2 msgs), 3×Send(1), 2×DialAndSend, Send+DialAndSend, 2×Send+DialAndSend, 2×DialAndSend with LOGIN / SCRAM authentication, Send+DialAndSend with auto-discovered authentication; scenarios with debug logging through the library's own logger, scenarios whose envelope addresses need quoting, scenarios in which the primary port refuses and every connection comes from the fallback port of a port policy (each dial attempt is a visible operation), scenarios in which goroutines use the connection-per-caller API (DialToSMTPClientWithContext, SendWithSMTPClient, CloseWithSMTPClient) next to each other and next to Send / DialAndSend, scenarios in which every connection negotiates STARTTLS (real crypto/tls handshakes) with one caller-supplied tls.Config that does not name the server, and scenarios in which the server refuses one message (a recipient with or without a failing clean-up RSET, or DATA) of one thread while the other threads' messages must be unaffected} on one Client; ALL interleavings at visible operations (every Lock/RLock of go-mail's mutexes through the sync shim, every connection Read/Write/Close) up to the preemption bound, under a cooperative scheduler that models Go's RWMutex (a waiting writer blocks new readers); oracle per schedule: protocol monitor on every connection, commit log = every message the server did not refuse exactly once with its own envelope and complete content (a refused one never), exactly the calls without a refused message return nil, no deadlock; plus a separate free-running pass of the same bodies under the Go race detector (2..64 goroutines, jittered I/O) — that pass samples schedules; distinct by (scenario, schedule)")
 			r.Assume("releases are not preemption points (sound for data-race-free code; races are the job of the separate -race pass)", "the race pass is sampling, not exhaustive: the 'no data race under any schedule' clause is only decided for the schedules it happens to run")
 			bound := 2
 			if r.Thorough {
